@@ -964,6 +964,18 @@ def _wrappers(ctx) -> None:
             if e.kind == "call" and e.term[1][0] == "attr" and e.term[1][2] == "toordinal" and e.term[1][1][0] == "elem" \
                     and e.term[1][1][1] in (DS, ("attr", DS, "_underlying")):
                 wprobs.append(f"{q2}: day arithmetic through toordinal() drops the time of a datetime element (v + 1 returns dates)")
+    # ... and where the date element is widened for a comparison with the ELEMENTS of a <datetime> vector, those elements are
+    # widened too: a <datetime> vector may hold plain dates (dates promoted in place), and datetime < date raises TypeError
+    dq = prog.func("vector._Date._elementwise_compare")
+    di = interp_of(prog, dq)
+    for e in di.events:
+        if e.kind != "call" or e.term[1] != ("param", "op") or len(e.term[2]) != 2:
+            continue
+        a0, a1 = e.term[2]
+        widened = lambda t: any(y[0] == "call" and y[1] == ("attr", ("name", "datetime"), "combine") for y in _st(t))
+        if widened(a0) and a1[0] == "elem" and not widened(a1):
+            wprobs.append(f"vector._Date._elementwise_compare:{e.node.lineno}: the date element is widened to midnight but the other vector's "
+                          f"element `{show(a1, di)[:40]}` is compared as it is: a <datetime> vector that holds a plain date makes dates < other raise TypeError")
     ctx.ob("e.wrappers", prog.func("vector._Date._elementwise_compare"), "date-widening-guarded", not wprobs,
            "an element is widened to midnight only if it is not a datetime already", prog.func("vector._Date._elementwise_compare").node,
            message="; ".join(sorted(set(wprobs))[:2]))
@@ -1000,6 +1012,8 @@ def _resolve(ctx) -> None:
 
 _V, _T = "vector", "table"
 MUTANTS = [
+    dict(id="date-compare-other-not-widened", module=_V, old="bool(op(_at_midnight(x), _at_midnight(y)))", new="bool(op(_at_midnight(x), y))",
+         rules=["e.wrappers"], desc="reverts fix b2ea82f"),
     dict(id="mapping-operand-as-sequence", module="vector", old="		if isinstance(other, Iterable) and not isinstance(other, (str, bytes, bytearray, Mapping)):\n			if len(self) != len(other):",
          new="		if isinstance(other, Iterable) and not isinstance(other, (str, bytes, bytearray)):\n			if len(self) != len(other):", rules=["b.length-before-result"],
          desc="reverts fix c01a1e7"),
